@@ -31,6 +31,7 @@ Definition ELIGIBLE : list Z := [0; 1; 2; 3].
 Definition view_of (w : world) : kview :=
   {| kv_stat := fun p => match lookup (table w) p with
                          | Some k => Some (kstart k, kppid k, kzomb k) | None => None end;
+     kv_ctime_ok := fun _ => true;        (* the simulated kernel never denies reading /proc/<pid>/stat *)
      kv_pids := map kpid (table w);
      kv_btime := btime w;
      kv_elig := fun _ => ELIGIBLE |}.
